@@ -91,7 +91,8 @@ template <typename Shape> void check_help()
 }
 
 VERIF_HARNESS(h_help_arg) { check_help<Arg<0, int>>(); }
-//@harness h_help_arg param n=0..3 tier=quick loop=200
+//@harness h_help_arg param n=0..2 tier=quick loop=200
+//@harness h_help_arg param n=3..4 tier=thorough loop=200 wall=3000 paths=200000
 VERIF_HARNESS(h_help_switch_optarg) { check_help<Prod<Switch<0, true>, Optional<Arg<1, sstr>>>>(); }
 //@harness h_help_switch_optarg param n=0..2 tier=quick loop=200
 //@harness h_help_switch_optarg param n=3..3 tier=thorough loop=200 wall=3000 paths=200000
@@ -113,9 +114,8 @@ VERIF_HARNESS(h_commands)
   verif_reach("commands constructed");
 
   m::node const m_common{common::model()}, m_xy{sub_xy::model()}, m_12{sub_12::model()};
-  m::tokens alphabet{m::alphabet(m_common, false)};
-  alphabet.push_back("--dd");
-  alphabet.push_back("ab");
+  // own names of the common options, the two command names, a sub-command switch, a foreign flag, a non-command word
+  m::tokens const alphabet{"--aa", "-a", "12", "xy", "--dd", "-z", "ab", "-"};
   fcppt::args_vector const args{choose_args(alphabet)};
   auto const real{o::parse(parser, args)};
   verif_reach("parsed");
@@ -161,5 +161,6 @@ VERIF_HARNESS(h_commands)
     }
   }
 }
-//@harness h_commands param n=0..3 tier=quick loop=200
+//@harness h_commands param n=0..2 tier=quick loop=200
+//@harness h_commands param n=3..3 tier=quick loop=200 cost=9
 //@harness h_commands param n=4..4 tier=thorough loop=200 wall=3000 paths=200000
